@@ -117,6 +117,11 @@ def rule_rt4(A: Analysis, rep):
             opv = norm(pd) if pd is not None else opv
         ok_out = opv == t + ".get_output_path(self._ctx)"
         rep.check(not diff and ok_out, "RT4", "planner passes the task's own run/args/options/paths", call, "", "RunTaskExecutable constructed with %s, output_path=%s" % (diff, opv))
+    gw = A.fn("task_types.base.TaskType.get_working_path")
+    r = [x for x in walk_local(gw.node) if isinstance(x, ast.Return)]
+    rep.check(len(r) == 1 and norm(r[0].value) == "pathlib.Path(%s.project_root, self._identifier.path)" % gw.params[1] and
+              len(A.prog.overriders("conductor.task_types.base.TaskType", "get_working_path")) == 1, "RT4", "working directory = directory of the task's COND file", gw.node,
+              "project_root / identifier.path", "get_working_path is `%s`" % (norm(r[0].value) if r else "?"))
     rs = A.fn("task_types.run._RunSubprocess.__init__")
     st = {norm(s.targets[0]): norm(s.value) for s in walk_local(rs.node) if isinstance(s, ast.Assign) and isinstance(s.targets[0], ast.Attribute)}
     rep.check(st.get("self._args") == "RunArguments.from_raw(identifier, args)" and st.get("self._options") == "RunOptions.from_raw(identifier, options)" and st.get("self._raw_run") == "run",
